@@ -470,8 +470,28 @@ def run_hist(sh, ctx):
 		sl = SignatureList(list(init), ks, dtype=np.dtype('u2'))
 		model = list(init)
 		trace = []
+		held = []      # (sub-collection taken earlier, what a plain list slice held at that moment, how it was taken)
 		for step in range(rng.randint(5, sh['steps'])):
 			n = len(model)
+			if step % 4 == 1 and len(held) < 6:
+				how = rng.choice(['[:]', '[0:n]', '[::1]', '[-n-3:n+3]', '[0:]', '[1:]', '[list]', '[mask]'])
+				try:
+					if how == '[:]': sub, exp_ = sl[:], model[:]
+					elif how == '[0:n]': sub, exp_ = sl[0:n], model[0:n]
+					elif how == '[::1]': sub, exp_ = sl[::1], model[::1]
+					elif how == '[-n-3:n+3]': sub, exp_ = sl[-n - 3:n + 3], model[-n - 3:n + 3]
+					elif how == '[0:]': sub, exp_ = sl[0:], model[0:]
+					elif how == '[1:]': sub, exp_ = sl[1:], model[1:]
+					elif how == '[list]': sub, exp_ = sl[list(range(n))], list(model)
+					else: sub, exp_ = sl[np.ones(n, dtype=bool)], list(model)
+					held.append((sub, list(exp_), how))
+					ctx.count('held_subcollections_of_a_mutable_parent')
+					if sub is sl:
+						ctx.violation('slice-is-the-parent', f'sl{how} returned the collection itself, not a new collection (a plain list returns a copy)', dict(trace=trace[-20:], how=how))
+						break
+				except Exception as e:
+					ctx.violation('history-op-raises', f'taking sl{how} raised {type(e).__name__}: {e}', dict(trace=trace[-20:]))
+					break
 			op = rng.choice(['set', 'set', 'setslice', 'del', 'delslice', 'insert', 'append', 'extend', 'pop', 'reverse', 'iadd', 'clear' if rng.random() < 0.1 else 'append', 'set-oob', 'del-oob', 'pop-empty'])
 			ctx.count(f'op:{op}')
 			try:
@@ -522,6 +542,10 @@ def run_hist(sh, ctx):
 				ctx.violation('history-op-raises', f'{op} raised {type(e).__name__}: {e}', dict(trace=trace[-20:]))
 				break
 			ctx.evals += 1
+			bad_held = [(how_, [x.tolist() for x in sub_][:5], [x.tolist() for x in exp_][:5]) for sub_, exp_, how_ in held if len(sub_) != len(exp_) or not all(np.array_equal(a_, b_) for a_, b_ in zip(sub_, exp_))]
+			if bad_held:
+				ctx.violation('earlier-subcollection-changed-by-mutation-of-parent', f'after {trace[-1] if trace else None}: the sub-collection taken earlier with sl{bad_held[0][0]} now reads {bad_held[0][1]}, it held {bad_held[0][2]}', dict(trace=trace[-30:]))
+				break
 			if not same(sl, model):
 				ctx.violation('history-diverged', f'after {trace[-1]}: {[x.tolist() for x in sl]} vs model {[x.tolist() for x in model]}', dict(trace=trace[-30:]))
 				break
@@ -661,7 +685,7 @@ def run_shard(sh, ctx):
 def finalize(merged, tier, seed, inconclusive):
 	c = merged['counters']
 	for n in ['class:slice', 'class:mask-ndarray', 'class:mask-wrong-length', 'class:intarray:u8', 'class:intarray:i1', 'class:int:np.u8', 'class:int-oob:int',
-	          'class:illtyped', 'class:slice-illtyped', 'class:aliasing', 'class:nested:as-is', 'class:nested-slice', 'class:long-iter', 'class:shared-buffer:array.array', 'class:shared-buffer:__array__', 'long-negative:i1', 'long-negative:i2', 'long-eq:file-vs-file', 'histories', 'op:setslice', 'op:delslice', 'oob_mutations_refused', 'eq:same', 'eq:k', 'eq:prefix', 'eq:elem', 'eq:dtype', 'eq:boundary']:
+	          'class:illtyped', 'class:slice-illtyped', 'class:aliasing', 'held_subcollections_of_a_mutable_parent', 'class:nested:as-is', 'class:nested-slice', 'class:long-iter', 'class:shared-buffer:array.array', 'class:shared-buffer:__array__', 'long-negative:i1', 'long-negative:i2', 'long-eq:file-vs-file', 'histories', 'op:setslice', 'op:delslice', 'oob_mutations_refused', 'eq:same', 'eq:k', 'eq:prefix', 'eq:elem', 'eq:dtype', 'eq:boundary']:
 		if c.get(n, 0) == 0:
 			inconclusive.append(f'class never observed: {n}')
 	return dict(exhaustive=True, exhaustive_note='index-* shards enumerate every int, slice and (for n<=5) mask over the stated ranges for collection lengths 0..7; histories and equality pairs are sampled')
